@@ -161,10 +161,12 @@ let run_case k line =
             let d = fq 3 and jump = fi 4 <> 0 and start = cell_of (fi 1) (fi 2) in
             let all = P.walk_all net (fuel d) start d jump in
             let s = cells_set all in
-            (* forced walks consume no pick: the tape-driven function must agree *)
-            (match List.sort_uniq compare all with
-             | [one] when List.length all = 1 ->
-               if P.walk net (fuel d) start d jump [] = one then s else s ^ " MODEL_INCONSISTENT"
+            (* a single outcome: the tape-driven function must agree (index 0 is a
+               valid pick wherever one is consumed) *)
+            (match all with
+             | [one] ->
+               let zeros = List.init 4096 (fun _ -> nat_of_int 0) in
+               if P.walk net (fuel d) start d jump zeros = one then s else s ^ " MODEL_INCONSISTENT"
              | _ -> s)
           | "T" ->
             cells_set (P.teleport_all net (cell_of (fi 1) (fi 2)) (z_of_int (fi 3)))
